@@ -640,7 +640,25 @@ def check_nm_shrink(ctx: Ctx):
                 ctx.ob("C19-O3", "R6 INCUMBENT", nm, f"choice between the evaluated candidates `{a_}` and `{b_}` keeps the better one", ok, f"test `{t_}`: comparing with anything else can discard the better of the two evaluated points", node=n)
 
 
+def round14_repairs(ctx: Ctx):
+    """The repairs of round 14 (ledger rows 73-78), each as the statement group that carries it."""
+    from .sat_common import _need
+
+    ps = ctx.func("particle_swarm", "particle_swarm")
+    _need(ctx, "C19-O3", "R6 INCUMBENT", ps, "every start position the caller gives becomes a particle (the swarm grows to hold them)", ["if initial_positions is not None:\n        n_particles = max(n_particles, len(initial_positions))"], "a start point cut off before it is evaluated can be better than everything the swarm finds: the result is then worse than a starting point")
+    de = ctx.func("differential_evolution", "differential_evolution")
+    _need(ctx, "C19-O3", "R6 INCUMBENT", de, "every start point the caller gives joins the population (which grows to hold them)", ["if initial_population is not None:\n        pop_size = max(pop_size, len(initial_population))"], "a start point cut off before it is evaluated can be better than everything the search finds")
+    _need(ctx, "C19-O5", "R18 table", de, "the mutant adds as many difference vectors as index pairs were drawn (one after the rand/1 fallback)", ["for d in range(len(diff_indices) // 2):"], "after the fallback drew two indices the loop over num_diffs reads a third and fourth: IndexError for rand/2, best/2 on small populations")
+    an = ctx.func("anneal", "anneal")
+    _need(ctx, "C19-O3", "R6 INCUMBENT", an, "the Metropolis test divides by the temperature only when it is positive", ["if delta < 0 or (temperature > 0 and rng.random() < exp(-delta / temperature)):"], "min_temp=0 lets a schedule reach temperature 0 exactly: the first non-improving neighbour raises ZeroDivisionError")
+    tb = ctx.func("tabu", "tabu_search")
+    _need(ctx, "C19-O5", "R18 table", tb, "tabu memory is kept only for a positive cooldown", ["if cooldown > 0:\n            if len(tabu_list) == cooldown:\n                tabu_set.discard(tabu_list[0])\n            tabu_list.append(best_move)\n            tabu_set.add(best_move)"], "with cooldown 0 the deque is always empty and `len(tabu_list) == cooldown` is true: tabu_list[0] raises IndexError")
+    by = ctx.func("bayesian", "bayesian_opt")
+    _need(ctx, "C19-O6", "R35 NO-RAISING-FLOAT-OP", by, "the kernel's length scale is positive in every dimension (a fixed one, lo == hi, gets 1.0)", ["length_scales = [(hi - lo) / 2 or 1.0 for lo, hi in bounds]"], "a bound with lo == hi gives length scale 0.0 and the first kernel evaluation divides by it")
+
+
 def run(ctx: Ctx):
+    ctx.step(round14_repairs)
     for name in GROUP_A:
         if name == "nelder_mead":
             continue
@@ -898,7 +916,43 @@ def _v_evaluator_memo(tree):
     i.body.extend(M.stmts("self._seen = {}"))
 
 
+def _v_pso_drops_start_points(tree):
+    g = M.find_func(tree, "particle_swarm")
+    M.replace_stmt(g, lambda s: M.src_is(s, "n_particles = max(n_particles, len(initial_positions))"), [])
+
+
+def _v_de_drops_start_points(tree):
+    g = M.find_func(tree, "differential_evolution")
+    M.replace_stmt(g, lambda s: isinstance(s, ast.If) and M.src_is(s.test, "initial_population is not None") and M.src_has(s, "pop_size = max(pop_size"), [])
+
+
+def _v_de_fallback_indexes_past(tree):
+    g = M.find_func(tree, "differential_evolution")
+    M.replace_expr(g, lambda e: M.src_is(e, "range(len(diff_indices) // 2)"), M.expr("range(num_diffs)"))
+
+
+def _v_anneal_divides_by_zero_temperature(tree):
+    g = M.find_func(tree, "anneal")
+    M.replace_expr(g, lambda e: M.src_is(e, "temperature > 0 and rng.random() < exp(-delta / temperature)"), M.expr("rng.random() < exp(-delta / temperature)"))
+
+
+def _v_tabu_cooldown_zero(tree):
+    g = M.find_func(tree, "tabu_search")
+    M.replace_stmt(g, lambda s: isinstance(s, ast.If) and M.src_is(s.test, "cooldown > 0"), lambda s: s.body)
+
+
+def _v_bayes_zero_length_scale(tree):
+    g = M.find_func(tree, "bayesian_opt")
+    M.replace_expr(g, lambda e: M.src_is(e, "(hi - lo) / 2 or 1.0"), M.expr("(hi - lo) / 2"))
+
+
 VARIANTS = [
+    M.Variant("particle_swarm cuts the start positions off at n_particles (original defect, ledger row 73)", PS, _v_pso_drops_start_points, "C19-O3"),
+    M.Variant("differential_evolution cuts the start points off at the population size (original defect, ledger row 74)", DE, _v_de_drops_start_points, "C19-O3"),
+    M.Variant("differential_evolution reads num_diffs index pairs after the rand/1 fallback (original defect, ledger row 75)", DE, _v_de_fallback_indexes_past, "C19-O5"),
+    M.Variant("anneal divides by a temperature of 0 (original defect, ledger row 76)", AN, _v_anneal_divides_by_zero_temperature, "C19-O3"),
+    M.Variant("tabu_search indexes its empty deque when cooldown is 0 (original defect, ledger row 77)", TB, _v_tabu_cooldown_zero, "C19-O5"),
+    M.Variant("bayesian_opt gives a fixed dimension the length scale 0 (original defect, ledger row 78)", BY, _v_bayes_zero_length_scale, "C19-O6"),
     M.Variant("Evaluator answers repeated flat solutions from a memo and still counts them (seed C19-U)", HP, _v_evaluator_memo, "C19-O4"),
     M.Variant("nelder_mead stopped by the callback returns simplex[0] (original defect, ledger row 61)", NM, _v_nm_callback_returns_first, "C19-O3"),
     M.Variant("nelder_mead shrinks once more between choosing the vertex and returning it", NM, _v_nm_select_then_shrink, "C19-O3"),
